@@ -98,7 +98,7 @@ class FlaskHop:
     has_status_fn = True
 
     def __init__(self, w: World, path: str, sub: Optional[str], status_fn: str, dispatcher_kwargs: Dict[str, Any],
-                 blueprint_prefix: Optional[str] = None, earlier_app: bool = False):
+                 blueprint_prefix: Optional[str] = None, earlier_app: bool = False, sub_blueprint: bool = False):
         self.w = w
         self.node = 'flask'
         self.log: Any = _Log()
@@ -114,8 +114,17 @@ class FlaskHop:
                                       error_handlers={}, **dispatcher_kwargs)
         self.other.dispatcher.add_methods(self.service.registry(['echo']))
         _wrap_dispatch(w, self.other.dispatcher, self.node, self.log, 'other')
+        self.sub_url_prefix, self.sub_path = '', (sub or '').rstrip('/')
         if sub:
-            d = self.rpc.add_endpoint(sub, error_handlers={}, **dispatcher_kwargs)
+            if sub_blueprint and not earlier_app:
+                # the additional endpoint is served on a blueprint of its own, mounted under a URL prefix
+                sbp = flask.Blueprint('pjsim_sub_bp', 'pjsim_flask', url_prefix='/private')
+                d = self.rpc.add_endpoint(sub, blueprint=sbp, error_handlers={}, **dispatcher_kwargs)
+                # (when the extension itself is initialised on a blueprint, the sub-blueprint is nested in it)
+                self.sub_url_prefix = (blueprint_prefix or '') + '/private'
+                w.probe('flask.sub_endpoint_on_blueprint')
+            else:
+                d = self.rpc.add_endpoint(sub, error_handlers={}, **dispatcher_kwargs)
             d.add_methods(self.service.registry())
             _wrap_dispatch(w, d, self.node, self.log, 'sub')
         if earlier_app:
@@ -140,7 +149,9 @@ class FlaskHop:
         res = HopResult()
         kw: Dict[str, Any] = {'content_type': content_type} if content_type is not None else {}
         try:
-            r = self.client.post(self.url_prefix + url, data=body, **kw)
+            is_sub = bool(self.sub_path) and url.endswith(self.sub_path)
+            prefix = self.sub_url_prefix if (is_sub and self.sub_url_prefix) else self.url_prefix
+            r = self.client.post(prefix + url, data=body, **kw)
             res.status, res.ctype, res.body = r.status_code, r.headers.get('Content-Type'), r.get_data()
         except Exception as e:  # noqa: BLE001
             res.raised = e
